@@ -25,7 +25,21 @@ func main() {
 	verif := flag.String("verif", "", "verif directory (default: parent of the binary's dir)")
 	out := flag.String("out", "", "evidence directory (default <verif>/evidence)")
 	explain := flag.String("explain", "", "replay: print the obligation recorded in this violation file, re-analysed on the current tree")
+	dump := flag.String("dump", "", "debug: print the SSA of module functions whose name contains this string")
 	flag.Parse()
+	if *dump != "" {
+		p, err := core.Load(*repo, "amd64")
+		if err != nil {
+			fmt.Fprintln(os.Stderr, err)
+			os.Exit(2)
+		}
+		for _, f := range p.ModFuncs() {
+			if strings.Contains(p.FuncName(f), *dump) {
+				f.WriteTo(os.Stdout)
+			}
+		}
+		return
+	}
 	if os.Getenv("VERIF_TIER") != "" && *tier == "" {
 		*tier = os.Getenv("VERIF_TIER")
 	}
